@@ -51,7 +51,8 @@ prop(
     "C03",
     title="Expansion leaves only resolvable cycle cut-points; acyclic specs end $ref-free",
     technique="property-based testing (rapid) with a model-based cut-point oracle: parallel walk of input and output, every remaining $ref resolved with the reference model and checked to lie on a cycle of the input graph; byte-determinism over repeated expansions of acyclic inputs",
-    rule=GRAPH_RULE + "50% of graphs are wired acyclic by construction. Free-form payloads containing the key $ref are planted. Non-trivial = cyclic graph, or acyclic graph with >=2 documents; distinct by hash of the canonical JSON of all documents",
+    rule=GRAPH_RULE + "50% of graphs are wired acyclic by construction. Free-form payloads containing the key $ref are planted. Before the random part every run enumerates the family of small graphs without ids (every digraph on <=2 nodes in the quick tier, <=3 in the thorough tier, x 13 placements of the $ref among the sub-schema keywords x 4 entry kinds x same/other document) through the same oracles. Non-trivial = cyclic graph, or acyclic graph with >=2 documents; distinct by hash of the canonical JSON of all documents / of the small-graph descriptor",
+    exhaustive_note="every cycle topology on <=2 (quick) / <=3 (thorough) nodes x placement x entry kind x same/other document, AbsoluteCircularRef alternating",
     design_ref="DESIGN.md §4 C03",
     level_text="exploration: random reference graphs (half acyclic by construction, half with arbitrary cycle topologies incl. cycles spanning documents and entered from parameters/responses/path items); every remaining $ref is checked for resolvability from the root, for designating a node on a cycle of the input (computed by the model, not by the implementation), and for its spelling; acyclic inputs are checked $ref-free and byte-deterministic over 5 expansions",
     level_note="cycle membership is computed on the reference model's graph of positions; the spelling rule demanded without AbsoluteCircularRef is: fragment-only into the root, relative (no scheme, no absolute path) for documents below the root's directory",
@@ -183,7 +184,7 @@ prop(
     level_text="exhaustive over the bounded alphabet (every run) + exploration of longer references: the single URL handed to the loader must equal the standard resolution with the fragment removed, compared as URLs (scheme, host, decoded path); a reference designating the containing document itself must cause no other request",
     level_note="net/url.ResolveReference is the reference implementation of RFC 3986 section 5; URL comparison is modulo percent-encoding normalisation (RFC 3986 6.2.2); absolute references are compared after the canonicalisation of C13",
     quick=dict(checks=1500, shards=4),
-    thorough=dict(checks=20000, shards=16),
+    thorough=dict(checks=20000, shards=16, fuzz=[("FuzzC12", 40)]),
 )
 
 prop(
